@@ -824,9 +824,19 @@ fn kind_sarray(rng: &mut Rng, out: &mut Out, id: &str, tier: &str) {
     let wr = rng.chance(2, 3);
     out.case(id);
     out.data(&words_of(&bits));
-    let mut x = SArray::from_bits(bits.iter().cloned());
-    if wr { x = x.enable_rank(); }
-    out.op(1004, &[len, wr as usize], "K".into(), "SArray");
+    let via_trait = rng.chance(1, 3);
+    let x = if via_trait {
+        // Build::build_from_bits(bits, with_rank, _, with_select0 = false); with_select0 = true is rejected
+        if SArray::build_from_bits(bits.iter().cloned(), wr, true, true).is_ok() {
+            eprintln!("HARNESS-ERROR: SArray::build_from_bits accepted with_select0");
+        }
+        SArray::build_from_bits(bits.iter().cloned(), wr, rng.chance(1, 2), false).unwrap()
+    } else {
+        let mut x = SArray::from_bits(bits.iter().cloned());
+        if wr { x = x.enable_rank(); }
+        x
+    };
+    out.op(1004, &[len, wr as usize], "K".into(), if via_trait { "SArray via Build" } else { "SArray" });
     if ones == 0 { out.stat("sa:no-ones"); }
     let r = if tier == "thorough" { 40 } else { 12 };
     out.op(10, &[], r_num(|| x.num_bits()), "num_bits");
